@@ -88,15 +88,15 @@ Print Assumptions L1_profile_run.
 (* A load profile as configured (a list of valid profiles run one after another: the nested
    composite of their schedules, step being itself a composite) discharges the hypotheses of
    C02_stream_ordered / C02_mono_finite / C02_conc_thread_mono: every leaf is leaf_ok and
-   unstarted, nothing is of unknown length; hence the stream is ordered and successive Next
-   calls never return decreasing times, whatever the clock.  (C02_seq_refines needs no leaf
+   unstarted, nothing is of unknown length; hence the stream is ordered (for every lower bound m
+   of the clock) and successive Next calls never return decreasing times, whatever the clock.  (C02_seq_refines needs no leaf
    hypothesis and applies to the configuration as it is.) *)
 Theorem L1_profiles_composite : forall ps cs,
   Forall valid ps -> Forall2 (fun p c => profile_cfg p = Some c) ps cs ->
   let fl := flatten_cfg (CComp cs) in
   Forall leaf_ok fl /\ Forall unstarted fl /\ existsb unknown_part fl = false /\
-  forall s nows, ordered s (fst (items_from s fl)) (snd (items_from s fl)) /\
-                 nondecr s (nexts nows (snd (items_from s fl)) (fst (items_from s fl))).
+  forall s m nows, ordered s m (fst (items_from s fl)) (snd (items_from s fl)) /\
+                   nondecr s (nexts nows (snd (items_from s fl)) (fst (items_from s fl))).
 Proof. exact profiles_composite. Qed.
 Print Assumptions L1_profiles_composite.
 
